@@ -1,20 +1,25 @@
 import ast
 import inspect
 import textwrap
-from typing import AbstractSet, Callable, Collection, Dict, Set
+from typing import AbstractSet, Callable, Collection, Dict, Optional, Set
 
 Dependencies = AbstractSet[str]
 
 
 class DependencyFinder(ast.NodeVisitor):
-    def __init__(self, param: str):
+    def __init__(self, param: str, cls_name: Optional[str] = None):
         self.param = param
+        self.cls_name = cls_name
         self.dependencies: Set[str] = set()
 
     def visit_Attribute(self, node):
         self.generic_visit(node)
         if isinstance(node.value, ast.Name) and node.value.id == self.param:
-            self.dependencies.add(node.attr)
+            attr = node.attr
+            # private names are mangled by the compiler, not in the parsed source
+            if self.cls_name and attr.startswith("__") and not attr.endswith("__"):
+                attr = f"_{self.cls_name}{attr}"
+            self.dependencies.add(attr)
 
     # TODO Add warning in case of function call with self in parameter
     # or better, follow the call, but it would be too hard (local import, etc.)
@@ -29,7 +34,11 @@ def first_parameter(func: Callable) -> str:
 
 def find_dependencies(func: Callable) -> Dependencies:
     try:
-        finder = DependencyFinder(first_parameter(func))
+        # name of the class in the body of which the function is defined, if any
+        *_, cls_name, _ = ("", "", *getattr(func, "__qualname__", "").split("."))
+        if cls_name == "<locals>":
+            cls_name = ""
+        finder = DependencyFinder(first_parameter(func), cls_name.lstrip("_"))
         finder.visit(ast.parse(textwrap.dedent(inspect.getsource(func))))
     except ValueError:
         return set()
